@@ -86,6 +86,74 @@ def classify(o):
 RES_EQB = "(fun a b => match a, b with Ok x, Ok y => tm_eqb x y | Panic _, Panic _ => true | _, _ => false end)"
 
 
+def laws_violated(items):
+    """items: [(t, n, ps)].  Evaluates every law instance on the REAL folders only; returns for each
+    item the sorted list of violated laws (empty list = all hold; None = the term is not convertible)."""
+    ks = irgen.DISCIPLINED_KINDS
+    r1, span = [], []
+    for t, n, ps in items:
+        try:
+            w, _ = wrap(t)
+        except (ValueError, IndexError, TypeError):
+            w = t
+        start = len(r1)
+        r1 += [("ShiftIn", n, t), ("ShiftOut", n, t), ("Subst", ps, t), ("FoldId", t), ("ShiftIn", n, w), ("ShiftIn", 1, w)]
+        r1 += [("ShiftIn", n, p) for p in ps]
+        span.append(start)
+    o1 = [classify(o) for o in core.run_harness("irbin", r1)]
+    r2, meta2 = [], []
+    res = []
+    for k, (t, n, ps) in enumerate(items):
+        s0 = span[k]
+        si, so, su, fi, sw, sw1 = o1[s0:s0 + 6]
+        sps = o1[s0 + 6:s0 + 6 + len(ps)]
+        if any(x is None for x in (si, so, su, fi, sw, sw1)) or any(x is None for x in sps):
+            res.append(None)
+            continue
+        bad = set()
+        if fi != t:
+            bad.add("fold_identity")
+        _, unwrap = wrap(t)
+        r2.append(("ShiftOut", n, si)); meta2.append((k, "shift_out_in", ("Some", t)))
+        if so != "None":
+            r2.append(("ShiftIn", n, so[1])); meta2.append((k, "shift_in_out", t))
+        r2.append(("IdentitySubst", ks, unwrap(sw1))); meta2.append((k, "subst_identity", t))
+        if not (isinstance(su, tuple) and su[0] == "Panic"):
+            r2.append(("ShiftIn", n, su)); meta2.append((k, "lhs", None))
+            r2.append(("Subst", sps, unwrap(sw))); meta2.append((k, "rhs", None))
+        res.append(bad)
+    o2 = [classify(o) for o in core.run_harness("irbin", r2)]
+    lhs = {}
+    for (k, law, expect), got in zip(meta2, o2):
+        if res[k] is None:
+            continue
+        if law == "lhs":
+            lhs[k] = got
+        elif law == "rhs":
+            if got != lhs.get(k):
+                res[k].add("subst_shift_commute")
+        elif got != expect:
+            res[k].add(law)
+    return [None if x is None else sorted(x) for x in res]
+
+
+def shrink_law(t, n, ps, law):
+    """Smallest subterm-replacement variant of t that still violates `law` on the real folders."""
+    cur = t
+    for _ in range(40):
+        cands = [c for c in irgen.shrink_candidates(cur) if irgen.tsize(c) < irgen.tsize(cur)]
+        if not cands:
+            break
+        cands.sort(key=irgen.tsize)
+        cands = cands[:200]
+        verdicts = laws_violated([(c, n, ps) for c in cands])
+        nxt = next((c for c, v in zip(cands, verdicts) if v and law in v), None)
+        if nxt is None:
+            break
+        cur = nxt
+    return cur
+
+
 def run(ctx):
     ok, why = ctx.proof_stage("Props.C25", ["shift_out_in", "shift_in_out", "subst_identity", "subst_shift_commute",
                                              "fold_identity", "subst_wellkinded_no_panic"])
@@ -158,10 +226,10 @@ def run(ctx):
         if isinstance(sres, tuple) and sres[0] == "Panic":
             continue
         law_cases.append(("ShiftIn", n, sres)); law_meta.append(("commute_lhs", i, None))
+    found = []     # (law, term, n, params) violated on the real folders
     for (t), res in by["FoldId"]:
         if res != t:
-            ctx.violation({"kind": "property", "law": "fold_identity", "input": sx.to_sexp(t), "output": sx.to_sexp(res),
-                           "what": "folding with a folder that overrides nothing returned a different term"})
+            found.append(("fold_identity", t, 1, []))
             break
     louts = [classify(o) for o in core.run_harness("irbin", law_cases)]
     lhs = {}
@@ -171,11 +239,12 @@ def run(ctx):
             lhs[inp] = got
             continue
         ctx.count("law:" + law, sx.to_sexp(inp if not isinstance(inp, tuple) or inp[0] in ("Node", "Var", "CVar") else list(inp)), nontrivial=True)
-        if got != expect and viol < 3:
+        if got != expect:
             viol += 1
-            ctx.violation({"kind": "property", "law": law, "input": sx.to_sexp(list(inp) if isinstance(inp, tuple) and inp[0] not in ("Node", "Var", "CVar") else inp),
-                           "expected": sx.to_sexp(expect), "got": sx.to_sexp(got) if got is not None else None,
-                           "what": "law %s fails on the real chalk-ir folders" % law})
+            if law == "subst_identity":
+                found.append((law, inp, 1, []))
+            else:
+                found.append((law, inp[1], inp[0], []))
     # commute rhs: Subst (map (ShiftIn n) ps) (unwrap (ShiftIn n (wrap t)))
     rhs_cases, rhs_idx = [], []
     shift_ps_cases, shift_ps_idx = [], []
@@ -195,12 +264,20 @@ def run(ctx):
     routs = [classify(o) for o in core.run_harness("irbin", rhs_cases)]
     for i, got in zip(rhs_idx, routs):
         ctx.count("law:subst_shift_commute", i, nontrivial=True)
-        if got != lhs[i] and viol < 3:
+        if got != lhs[i]:
             viol += 1
             (ps, t), _ = by["Subst"][i]
-            ctx.violation({"kind": "property", "law": "subst_shift_commute", "input": sx.to_sexp(t), "params": sx.to_sexp(ps), "n": by["ShiftInW"][i][0][0],
-                           "lhs": sx.to_sexp(lhs[i]), "rhs": sx.to_sexp(got) if got is not None else None,
-                           "what": "shifting after substituting differs from substituting shifted parameters into the shifted body"})
+            found.append(("subst_shift_commute", t, by["ShiftInW"][i][0][0], ps))
+    seen_laws = set()
+    for law, t, n, ps in sorted(found, key=lambda f: irgen.tsize(f[1])):
+        if law in seen_laws or len(seen_laws) >= 3:
+            continue
+        seen_laws.add(law)
+        small = shrink_law(t, n, ps, law)
+        ctx.violation({"kind": "property", "law": law, "input": sx.to_sexp(small), "n": n, "params": sx.to_sexp(ps), "original_input": sx.to_sexp(t)[:2000],
+                       "laws_violated_at_input": laws_violated([(small, n, ps)])[0],
+                       "what": "law %s fails on the real chalk-ir folders (shifted_in_from / shifted_out_to / Subst::apply / identity_substitution / do-nothing folder)" % law})
+    ctx.cov["law_violations"] = len(found)
 
     # ---- stage B: model == implementation, operation by operation -------------------------------
     imports = ["Ir.Syntax", "Ir.Fold"]
@@ -243,5 +320,10 @@ def run(ctx):
 
 
 def replay(ctx, obj):
-    print("replay: law", obj.get("law"), "input", obj.get("input"))
-    return 1
+    core.build_harness(bins=["irbin"])
+    t = sx.parse_sexp(obj["input"])
+    n = obj.get("n", 1)
+    ps = sx.parse_sexp(obj["params"]) if obj.get("params") else []
+    v = laws_violated([(t, n, ps)])[0]
+    print("laws violated on the real folders:", v)
+    return 1 if v else 0
